@@ -14,6 +14,8 @@ RESP = [
     ("prop(s, n)", "prop:col"), ("prop(s, 7)", "prop:const"), ("p(s, n)", "prop:col"), ("proportion(s, n)", "prop:col"),
     ("inc['>50K']", "level:inc:>50K"), ('inc["n/a"]', "level:inc:n/a"), ("inc['St. Louis']", "level:inc:St. Louis"), ("inc", "cat"),
     ("prop(s, n)", "prop:col:big"),
+    ("y['1']", "refused"), ("y[a]", "refused"),  # a level needs a categorical variable
+    ("kc['3']", "level:kc:3"), ('kc["1"]', "level:kc:1"), ("kc", "cat"),  # a pandas categorical whose categories are numbers
     ("y:z", "refused"), ("y + z", "refused"), ("f:g", "refused"), ("y*z", "refused"), ("g[t] + g[s]", "refused"), ("g + g[t]", "refused"), ("g[t]:g[u]", "refused"), (None, "none"),
 ]
 
@@ -56,6 +58,8 @@ def harness(env, case):
         if any(v in gen.LEVELS for v in vars_):
             return
     df, rows = gen.build_frame(env, vars_, flavour, "scramble", min_rows=260 if big else 4)
+    if "kc" in df:
+        df["kc"] = pd.Categorical(list(df["kc"]), categories=sorted(gen.LEVELS["kc"]), ordered=(flavour == "ord"))
     n = len(df)
     if kind.startswith("prop"):
         # counts are integer-sorted symbols; only the first rows symbolic to bound the forks
@@ -77,7 +81,7 @@ def harness(env, case):
     except Exception as e:
         dm, raised = None, e
     if kind == "refused":
-        env.prove(raised is not None, "a response with more than one term is refused")
+        env.prove(raised is not None, "a response that is not one valid term is refused (several terms, a level on a numeric variable)")
         return
     if kind.startswith("prop") and raised is not None:
         # legitimate refusal iff some successes exceed trials on this path
